@@ -247,6 +247,91 @@ def run(ctx):
             if ok_ is not True:
                 ctx.violation('a valid signature with a short r is not accepted in one of its documented forms', {'op': 'verify short-r', 'form': nm, 'length': len(der_), 'observed': str(ok_)})
         cases.append(('ecdsa_verify_rs %s %s %d %d' % (kd.public_byte.hex(), zh(zz), sg_.r, sg_.s), 'true' if sg_.s <= N // 2 else 'true-but-high-s', True)) if False else None
+    # ---- a "public key" that is not a point of the curve verifies nothing, also when it comes as a Key object made with strict=False
+    # (the kind non-strict transaction parsing creates)
+    P_ = 2 ** 256 - 2 ** 32 - 977
+    for _ in range(12 if T else 5):
+        x_ = rng.randrange(1, 2 ** 255)
+        y_ = rng.randrange(1, 2 ** 255)
+        if (y_ * y_ - x_ * x_ * x_ - 7) % P_ == 0:
+            continue
+        bad_ = attempt_key = None
+        try:
+            bad_ = Key('04' + '%064x' % x_ + '%064x' % y_, strict=False)
+        except Exception:
+            ctx.count('off-curve-key-refused-at-construction')
+            continue
+        kd = Key(rng.randrange(1, N))
+        zz = rng.getrandbits(256)
+        sg_ = sign(zh(zz), kd)
+        # a triple that "verifies" under the textbook equations for an off-curve point can be made without any private key; here: any
+        # signature at all must be refused or answered False
+        # with digest 0 the textbook equations only use u2 * Q: (r, s) = (x(u2 * Q) mod n, r / u2) "verifies" under Q on whatever curve Q
+        # lies on - a forgery that needs no private key
+        def add_(p1, p2):
+            if p1 is None:
+                return p2
+            if p2 is None:
+                return p1
+            (x1, y1), (x2, y2) = p1, p2
+            if x1 == x2 and (y1 + y2) % P_ == 0:
+                return None
+            lam = (3 * x1 * x1 * pow(2 * y1, -1, P_)) % P_ if p1 == p2 else ((y2 - y1) * pow(x2 - x1, -1, P_)) % P_
+            x3 = (lam * lam - x1 - x2) % P_
+            return x3, (lam * (x1 - x3) - y1) % P_
+        u2 = rng.randrange(2, 2 ** 64)
+        acc, base, kk_ = None, (x_, y_), u2
+        try:
+            while kk_:
+                if kk_ & 1:
+                    acc = add_(acc, base)
+                base = add_(base, base)
+                kk_ >>= 1
+        except (ValueError, TypeError):
+            acc = None
+        forged = []
+        if acc is not None and acc[0] % N:
+            rf = acc[0] % N
+            forged = [(rf, rf * pow(u2, -1, N) % N, 0)]
+        # ... and with a digest: R = u1 * G + u2 * Q by the plain affine formulas (separate ladders, and one shared ladder)
+        GX, GY = 0x79BE667EF9DCBBAC55A06295CE870B07029BFCDB2DCE28D959F2815B16F81798, 0x483ADA7726A3C4655DA4FBFC0E1108A8FD17B448A68554199C47D08FFB10D4B8
+
+        def mul_(k_, pt):
+            r0 = None
+            while k_:
+                if k_ & 1:
+                    r0 = add_(r0, pt)
+                pt = add_(pt, pt)
+                k_ >>= 1
+            return r0
+        u1 = rng.randrange(2, N)
+        u2b = rng.randrange(2, N)
+        try:
+            cands = [add_(mul_(u1, (GX, GY)), mul_(u2b, (x_, y_)))]
+            ssum, racc = add_((GX, GY), (x_, y_)), None
+            for i_ in range(max(u1.bit_length(), u2b.bit_length()) - 1, -1, -1):
+                racc = add_(racc, racc)
+                b1_, b2_ = (u1 >> i_) & 1, (u2b >> i_) & 1
+                racc = add_(racc, ssum if (b1_ and b2_) else (GX, GY) if b1_ else (x_, y_) if b2_ else None)
+            cands.append(racc)
+        except (ValueError, TypeError):
+            cands = []
+        for rp in cands:
+            if rp is not None and rp[0] % N:
+                rf = rp[0] % N
+                sf = rf * pow(u2b, -1, N) % N
+                if sf:
+                    forged.append((rf, sf, u1 * sf % N))
+        ctx.count('off-curve-forgeries-built', len(forged))
+        for r_, s_, zf in [(sg_.r, sg_.s, zz), (1, 1, zz)] + forged:
+            ctx.evals += 1
+            ctx.count('off-curve-public-key')
+            try:
+                ok_ = Signature(r_, s_).verify(zh(zf), bad_)
+            except Exception:
+                ok_ = False
+            if ok_ is True:
+                ctx.violation('a signature verifies under a public key that is not a point of the curve', {'op': 'verify off-curve', 'x': '%064x' % x_, 'y': '%064x' % y_, 'r': r_, 's': s_})
     # ---- DER parsing ----------------------------------------------------------------------------------------
     def lib_der(der):
         try:
